@@ -63,6 +63,7 @@ def main(argv=None):
     ap.add_argument('--no-shrink', action='store_true')
     ap.add_argument('--wall', type=int, default=None, help='batch wall cap in seconds')
     ap.add_argument('--no-evidence', action='store_true')
+    ap.add_argument('--dump-digests', default=None, help='write one line per case (index digest outcome signatures) for the determinism self-test')
     a = ap.parse_args(argv)
     pid = a.prop.upper()
     tier = a.tier if a.tier in ('quick', 'thorough') else 'quick'
@@ -146,6 +147,10 @@ def main(argv=None):
     wall = a.wall if a.wall is not None else (P.quick_wall if tier == 'quick' and hasattr(P, 'quick_wall') else None)
     res = runner.explore(_job, items, workers=a.workers, chunk=P.chunk, batch_wall=wall, progress=progress)
 
+    if a.dump_digests:
+        with open(a.dump_digests, 'w') as fh:
+            for it, v in res:
+                fh.write('%d %s %s %s\n' % (it[3], v.get('digest'), v.get('outcome'), sorted(set(sigkey(x) for x in v.get('violations', [])))))
     # ---------------- aggregate
     outcomes = {}
     counters = {}
